@@ -1,7 +1,8 @@
 import Infretis.Model.Proto
 import Infretis.Model.AddToPath
 import Infretis.Model.EngineLoops
-open Infretis Infretis.Proto Infretis.Engine Infretis.EngineLoops
+import Infretis.Model.EnginePropagate
+open Infretis Infretis.Proto Infretis.Engine Infretis.EngineLoops Infretis.EnginePropagate
 
 /-
 Requests (all numbers are integers; order values/interfaces are pre-scaled by the harness):
@@ -13,6 +14,18 @@ Requests (all numbers are integers; order values/interfaces are pre-scaled by th
   inproc <ase 0|1> <left> <right> <maxlen> <rev> <sub> <n> (cid bid vel)… <q> (cid bid value)…
   gmx  <asis|rep> <left> <right> <maxlen> <rev> <n> (cid bid vel)… <q> (cid bid value)…
   gmxext <asis|rep> <left> <right> <maxlen> <rev> <code> <need0> <fuel> <n> (cid bid vel)… <m> (file vis vis2 alive)… <q> (cid bid value)…
+
+extension pass (Model/EnginePropagate.lean); <pt> = <file: u<n>|conf|rconf|traj> <idx|-> <velRev 0|1>
+  exec <rc>                                                          → execCommand
+  propsetup <reverse> <pt>                                           → propagateSetup
+  calcorder <hasfn> <velRev> <xyz|-> <vel|-> <box|-> <fcid> <fbid> <fvel> <q> (cid bid value)…   → calcOrder (ord = table + vel)
+  snap <order|-> <pos> <vel> <vpot|-> <ekin|-> <file> <idx|-> <velRev>   <order|-> <pos> <vel> <vpot|-> <ekin|-> <cfg 0|1> <file> <idx|-> <velRev|->   → snapshotToSystem
+  propinproc <ase> <left> <right> <maxlen> <reverse> <sub> <pt> <n> (cid bid vel)… <q> (cid bid value)…
+        the point's file holds the n frames; dynamics = free flight `cid += vel / 2` per step     → propagateInproc
+  cp2ktraj   (the arguments of `ext` with a cp2k kind)                → cp2kTrajFile of extRun's path
+  propgmx <asis|rep> <left> <right> <maxlen> <reverse> <code> <need0> <fuel> <gromppRc> <energyRc> <pt>
+          <ns> (cid bid vel)… <n> (cid bid vel)… <m> (file vis vis2 alive)… <q> (cid bid value)…
+        the point's file holds the ns frames; mdrun writes the n frames                           → propagateGmx
 -/
 
 def showStatus : Option PStatus → String
@@ -176,4 +189,125 @@ def handle (toks : List String) : String :=
     | _, _, _, _ => "bad-op"
   | _ => "bad-op"
 
-def main : IO Unit := mainWith handle
+def showFName : FName → String
+  | .user n => s!"u{n}"
+  | .conf => "conf"
+  | .rconf => "rconf"
+  | .traj => "traj"
+
+def parseFName (s : String) : Option FName :=
+  if s = "conf" then some .conf else if s = "rconf" then some .rconf else if s = "traj" then some .traj
+  else if s.startsWith "u" then (parseNat? (String.ofList (s.toList.drop 1))).map FName.user else none
+
+def showCall : Call → String
+  | .copy a b => s!"copy:{showFName a}:{showFName b}"
+  | .extract a i b => s!"extract:{showFName a}:{i}:{showFName b}"
+  | .reverse a b => s!"reverse:{showFName a}:{showFName b}"
+
+def showOptNat : Option Nat → String
+  | none => "-"
+  | some n => toString n
+
+def showOptInt : Option Int → String
+  | none => "-"
+  | some n => toString n
+
+def parseOptNat (s : String) : Option (Option Nat) := if s = "-" then some none else (parseNat? s).map some
+def parseOptInt (s : String) : Option (Option Int) := if s = "-" then some none else (parseInt? s).map some
+
+def parsePoint (f i v : String) : Option Point :=
+  match parseFName f, parseOptNat i with
+  | some f, some i => some { file := f, idx := i, velRev := v = "1" }
+  | _, _ => none
+
+def showSetup (su : Setup) : String :=
+  s!"{showList showCall su.calls} {showFName su.initialConf} {showFName su.sys.file} {showOptNat su.sys.idx} {b01 su.sys.velRev} {b01 su.backward}"
+
+/-- the harness's free flight: half a velocity unit per step (timestep 0.5) -/
+def flightStep (f : Frame) : Frame := { f with cid := (f.cid + f.vel / 2).toNat }
+
+def storeOf (file : FName) (fr : List Frame) : Store := fun n => if n = file then fr else []
+
+def showFrame (f : Frame) : String := s!"{f.cid},{f.bid},{f.vel}"
+
+def handle2 (toks : List String) : String :=
+  match toks with
+  | ["exec", rc] =>
+    match parseInt? rc with
+    | some rc => let r := execCommand rc; s!"{b01 r.raised} {showOptInt r.ret} {b01 r.logsKept}"
+    | none => "bad-op"
+  | ["propsetup", rev, f, i, v] =>
+    match parsePoint f i v with
+    | some p => showSetup (propagateSetup (rev = "1") p)
+    | none => "bad-op"
+  | "calcorder" :: hasfn :: vr :: x :: v :: b :: fc :: fb :: fv :: rest =>
+    match parseOptNat x, parseOptInt v, parseOptNat b, parseNat? fc, parseNat? fb, parseInt? fv, takeTriples rest with
+    | some x, some v, some b, some fc, some fb, some fv, some (tab, []) =>
+      let o : Option (Nat → Nat → Int → Int) :=
+        if hasfn = "1" then some (fun c b w => 1000 * tableOrd tab c b w + w) else none
+      match calcOrder o (vr = "1") x v b { cid := fc, bid := fb, vel := fv } with
+      | none => "err:value"
+      | some r => toString r
+    | _, _, _, _, _, _, _ => "bad-op"
+  | ["snap", o, hp, hv, vp, ek, cf, ci, vr, so, shp, shv, svp, sek, scfg, scf, sci, svr] =>
+    match parseOptInt o, parseOptInt vp, parseOptInt ek, parseNat? cf, parseOptNat ci,
+          parseOptInt so, parseOptInt svp, parseOptInt sek, parseNat? scf, parseOptNat sci with
+    | some o, some vp, some ek, some cf, some ci, some so, some svp, some sek, some scf, some sci =>
+      let s : Sys := { order := o, hasPos := hp = "1", hasVel := hv = "1", vpot := vp, ekin := ek, cfgFile := cf, cfgIdx := ci,
+                       velRev := vr = "1" }
+      let sn : Snapshot := { order := so, hasPos := shp = "1", hasVel := shv = "1", vpot := svp, ekin := sek,
+                             config := if scfg = "1" then some (scf, sci) else none,
+                             velRev := if svr = "-" then none else some (svr = "1") }
+      let r := snapshotToSystem s sn
+      s!"{showOptInt r.order} {b01 r.hasPos} {b01 r.hasVel} {showOptInt r.vpot} {showOptInt r.ekin} {r.cfgFile} {showOptNat r.cfgIdx} {b01 r.velRev}"
+    | _, _, _, _, _, _, _, _, _, _ => "bad-op"
+  | "propinproc" :: ase :: l :: r :: ml :: rev :: sub :: f :: i :: v :: rest =>
+    match parseInt? l, parseInt? r, parseNat? ml, parseNat? sub, parsePoint f i v, takeTriples rest with
+    | some l, some r, some ml, some sub, some p, some (fr, rest) =>
+      match takeTriples rest with
+      | some (tab, []) =>
+        let c : Cfg := { ord := tableOrd tab, left := l, right := r, maxlen := ml, rev := false }
+        match propagateInproc c sub flightStep (ase = "1") (rev = "1") (storeOf p.file (toFrames fr)) p with
+        | none => "err:nostart"
+        | some o => s!"{showSetup o.setup} | {showResult o.res}"
+      | _ => "bad-op"
+    | _, _, _, _, _, _ => "bad-op"
+  | "cp2ktraj" :: kind :: l :: r :: ml :: rev :: code :: fuel :: rest =>
+    match parseKind kind, parseInt? l, parseInt? r, parseNat? ml, parseInt? code, parseNat? fuel, takeTriples rest with
+    | some k, some l, some r, some ml, some code, some fuel, some (fr, rest) =>
+      match takeQuads rest with
+      | some (ws, rest) =>
+        match takeTriples rest with
+        | some (tab, []) =>
+          let c : Cfg := { ord := tableOrd tab, left := l, right := r, maxlen := ml, rev := rev = "1" }
+          showList showFrame (cp2kTrajFile c.rev (extRun k c (toSched ws) code (toFrames fr) fuel).es)
+        | _ => "bad-op"
+      | none => "bad-op"
+    | _, _, _, _, _, _, _ => "bad-op"
+  | "propgmx" :: gv :: l :: r :: ml :: rev :: code :: need0 :: fuel :: grc :: erc :: f :: i :: v :: rest =>
+    match parseInt? l, parseInt? r, parseNat? ml, parseInt? code, parseNat? need0, parseNat? fuel, parseInt? grc, parseInt? erc,
+          parsePoint f i v, takeTriples rest with
+    | some l, some r, some ml, some code, some need0, some fuel, some grc, some erc, some p, some (sfr, rest) =>
+      match takeTriples rest with
+      | some (fr, rest) =>
+        match takeQuads rest with
+        | some (ws, rest) =>
+          match takeTriples rest with
+          | some (tab, []) =>
+            let c : Cfg := { ord := tableOrd tab, left := l, right := r, maxlen := ml, rev := false }
+            let frames := toFrames fr
+            match propagateGmx (if gv = "rep" then .repaired else .asIs) c (toSched ws) code need0 (fun _ => frames) fuel grc erc
+                (rev = "1") (storeOf p.file (toFrames sfr)) p with
+            | none => "err:nostart"
+            | some o =>
+              let st := match startFrame (rev = "1") (storeOf p.file (toFrames sfr)) p with
+                | some g => showFrame g
+                | none => "-"
+              s!"{showSetup o.setup} | {b01 o.started} {st} | {showResult o.res}"
+          | _ => "bad-op"
+        | none => "bad-op"
+      | none => "bad-op"
+    | _, _, _, _, _, _, _, _, _, _ => "bad-op"
+  | _ => handle toks
+
+def main : IO Unit := mainWith handle2
